@@ -26,7 +26,7 @@ REPLS = ["keep_first_replace_rest", "keep_rest_replace_first", "substitute_all",
 
 def cases(tier, seed):
     rng = np.random.default_rng([7, seed])
-    n = 560 if tier == "quick" else 20000
+    n = 560 if tier == "quick" else 200000
     out = []
     for j in range(n):
         out.append({"s": int(rng.integers(1 << 30)), "topology": TOPOLOGIES[j % 5], "repl": REPLS[(j // 5) % len(REPLS)], "cell": ["ortho", "tri+-+", "tri--+", "ortho"][(j // 3) % 4],
